@@ -498,10 +498,11 @@ class yanny(OrderedDict):
             result = cache[variable]
         except KeyError:
             typ = self.type(structure, variable)
-            character_array = re.compile(r'char[\[<]\d*[\]>][\[<]\d*[\]>]')
-            if ((character_array.search(typ) is not None) or
-                    (typ.find('char') < 0 and (typ.find('[') >= 0 or
-                                               typ.find('<') >= 0))):
+            ischar = self.basetype(structure, variable) == 'char'
+            character_array = re.compile(r'^char[\[<]\d*[\]>][\[<]\d*[\]>]')
+            if ((ischar and character_array.search(typ) is not None) or
+                    (not ischar and (typ.find('[') >= 0 or
+                                     typ.find('<') >= 0))):
                 cache[variable] = True
             else:
                 cache[variable] = False
@@ -580,7 +581,7 @@ class yanny(OrderedDict):
             The length of the char variable.
         """
         typ = self.type(structure, variable)
-        if typ.find('char') < 0:
+        if self.basetype(structure, variable) != 'char':
             return None
         try:
             return int(typ[typ.rfind('[')+1:typ.rfind(']')])
